@@ -257,6 +257,10 @@ def oracle_C02(rs, n, ctx):
                 R.violate("C02:layered-line", f"grid-line time at index {k}: {got[k]!r} vs cumulative sum {expect[k]!r}", rep)
             continue
         cells = gens.rand_shape(rs, nd, 4, hi)
+        if nd == 3 and it % 2 == 0:
+            # strongly unequal shapes: a clamp written with the wrong axis length is invisible when the lengths agree
+            lng = it // 2 % 3
+            cells = tuple(int(12 + (it * 7) % 13) if a == lng else cells[a] for a in range(nd))
         d = gens.rand_spacing(rs, nd)
         while max(d) / min(d) > 4:
             d = gens.rand_spacing(rs, nd)
